@@ -347,6 +347,20 @@ def check(run):
                       'the address/port put into the reply do not come from %s.%s(): e.g. echoing the requested endpoint announces port 0 when the client asked the proxy to choose, and the target can never connect' % (sock, meths[0]),
                       'derived from %s.%s()' % (sock, meths[0]))
 
+    run.clause('UDP ASSOCIATE learns the client\'s source port only from a datagram that comes from the client\'s own address')
+    oru = fx.fn1(C + '::on_read_udp')
+    run.touch(oru)
+    learn = [c for c in oru.calls() if (c.get('callee') or '').split('::')[-1] == 'port' and q.render(oru, c.get('obj')) == 'm_udp_associate_ep' and c.get('args')]
+    if not learn:
+        run.unrecognised('R5', 'udp-client-port-learned', C + '::on_read_udp', oru.loc(), 'the assignment of the client\'s UDP port was not found (idiom changed)')
+    for c in learn:
+        g = [(q.render(oru, a), p_) for a, p_ in q.guards_at(oru, c)]
+        from_client = any(p_ and 'm_udp_from.address()' in t and 'm_udp_associate_ep.address()' in t and '==' in t for t, p_ in g)
+        unknown = any(p_ and 'm_udp_associate_ep.port()' in t and '== 0' in t.replace('(', '').replace(')', '') for t, p_ in g)
+        run.check(from_client and unknown, 'R5', 'udp-client-port-learned', C + '::on_read_udp', oru.loc(c),
+                  'the still-unknown client port is taken from a datagram without checking that it comes from the client\'s address (guards: %s): the first datagram from ANY host fixes the port, after which the real client\'s datagrams are treated as replies and never forwarded' % [t for t, p_ in g],
+                  'learned only under port()==0 && sender address == client address')
+
     run.clause('relay structure: each direction forwards the whole chunk it read with the composed async_write from the buffer the read filled, to the other connection, and re-reads into that buffer only from the write completion')
     PAIRS = (('on_client_receive', 'on_client_forward', 'm_out_buffer', 'm_server_connection', 'm_client_connection'),
              ('on_server_receive', 'on_server_forward', 'm_in_buffer', 'm_client_connection', 'm_server_connection'))
